@@ -18,7 +18,7 @@ open Src
 theorem get_changed_class_is_model [DecidableEq α] (null : α) (e : DExt κ α) (sd : Nat)
     (h3 : 3 ≤ e.shape.length) (h5 : e.shape.length ≤ 5) (hpos : ∀ x ∈ e.shape, 0 < x) (hsd : sd < e.shape.length)
     (ks : KeyState α) (hks : ∀ c v, ks = some (c, v) → c ∈ validClasses e.shp ∧ mult e.shp c ≠ 0) (new : Cls) :
-    Py.get_changed_class e.shape (e.sliceDim.map fun d => e.shape.getD d 1) (valuesOf null ks) (ks.map (·.1)) new sd =
+    Py.get_changed_class e.shape (e.sliceDim.map fun d => e.shape.getD d 1) (valuesOf null ks) (ks.map (·.1)) new (some sd) =
       errV (getChangedK null (e.shp (some sd)) ks new) :=
   Src.get_changed_class_eq null e sd h3 h5 hpos hsd ks hks new
 
@@ -67,6 +67,16 @@ theorem insert_sample_interleave_is_model (e : DExt κ α) (sdArg : Option Nat) 
 /-- Python's `values[start::step]` is the model's `stride step (values.drop start)` -/
 theorem slice_step_is_model (l : List α) (start p : Nat) : pyStep l start p = stride p (l.drop start) :=
   Src.pyStep_eq l start p
+
+/-- … and without a `slice_dim` argument (as `_change_class` calls it), whenever the extension has a slice dimension of its own
+    or the target class is not per slice (otherwise Python reads `shape[None]`: TypeError) -/
+theorem get_changed_class_no_slice_dim_is_model [DecidableEq α] (null : α) (e : DExt κ α)
+    (h3 : 3 ≤ e.shape.length) (h5 : e.shape.length ≤ 5) (hpos : ∀ x ∈ e.shape, 0 < x)
+    (ks : KeyState α) (hks : ∀ c v, ks = some (c, v) → c ∈ validClasses e.shp ∧ mult e.shp c ≠ 0) (new : Cls)
+    (hn : e.sliceDim.isSome = true ∨ perSlice new = false) :
+    Py.get_changed_class e.shape (e.sliceDim.map fun d => e.shape.getD d 1) (valuesOf null ks) (ks.map (·.1)) new none =
+      errV (getChangedK null (e.shp none) ks new) :=
+  Src.get_changed_class_none_eq null e h3 h5 hpos ks hks new hn
 
 /-- the translator translated every function of this group (dcmmeta.py: value-list arithmetic of get_subset / from_sequence (_get_changed_class, _copy_slice, _global_slice_subset, the interleaving of _insert_slice / _insert_sample)) -/
 theorem translator_complete_values : Gen.codeMissing_values = [] := rfl
